@@ -125,8 +125,16 @@ def c19 (args res : List String) : Verdict :=
       else if get "good" ≠ "1" then vProp "T4-good-announce-never-answered" tag
       else if get "requests" ≠ toString (k + 1) then vDiff "requests" (toString (k + 1)) tag
       else if get "responsive" = "n" then vProp "T4-manager-does-not-serve-connections-while-announces-fail" tag
-      else if get "contacted" ≠ s!"{min n slots}/{n}" then vProp s!"T4-listed-peers-not-contacted-{get "contacted"}" tag
-      else vOk tag
+      else
+        -- the fake peers hang up after the handshake, so the session goes on to the next candidates
+        -- (C02 T5_every_candidate_gets_its_turn): at least the first `slots` are contacted, possibly all
+        let enough : Bool := match (get "contacted").splitOn "/" with
+          | [a, b] => (match a.toNat?, b.toNat? with
+            | some a, some b => b == n && a ≥ min n slots && a ≤ n
+            | _, _ => false)
+          | _ => false
+        if !enough then vProp s!"T4-listed-peers-not-contacted-{get "contacted"}" tag
+        else vOk tag
     | _, _ => vBad (joinToks args)
   | _ => vBad (joinToks args)
 
